@@ -159,6 +159,12 @@ def run(seed, n):
                 pipe = A.Compose(pipe.transforms, p=float(top['p']),
                                  bbox_params=A.BboxParams('pascal_voc_3d', check_each_transform=topmode))
                 extra = {'bboxes': [(0.0, 0.0, 0.0, 2.0, 2.0, 2.0, 'a')]}
+        if topmode is None and rng.random() < 0.3:
+            # the recording subclass schedules exactly like Compose (its own p, its children, the always-apply leaves)
+            pipe = A.ReplayCompose(pipe.transforms, p=float(top['p']))
+            replayed = True
+        else:
+            replayed = False
         del TRACE[:]
         random.seed(rng.randint(0, 1 << 30))
         force = rng.random() < 0.15
@@ -200,7 +206,8 @@ def run(seed, n):
                                       ''.join(' && (%s)' % w for w in wcases))
         cases.append({'tree': top, 'force': force, 'events': [(k, (float(v) if k == 'U' else v)) for k, v in ev],
                       'trace': trace, 'coq': coq})
-        key = 'fired=%d' % len([x for x in trace if x]) + ('' if topmode is None else ',checks=%s' % ('on' if topmode else 'off'))
+        key = 'fired=%d' % len([x for x in trace if x]) + ('' if topmode is None else ',checks=%s' % ('on' if topmode else 'off')) \
+            + (',ReplayCompose' if replayed else '')
         kinds[key] = kinds.get(key, 0) + 1
     # evaluate the model
     cdir = os.path.join(VERIF, 'coq', 'cases')
